@@ -26,14 +26,24 @@ EXPLANATION = (
     "any legal run reaching the exit is accepted by the complete checker (C16_scc_step_invariant, C16_scc_run_invariant, "
     "C16_machine_exact_dir); the numbering of the Tarjan model is such a labelling (C16_tarjan_scc_topo), so the statements "
     "hold without hypotheses on the components (C16_machine_exact_tarjan) and the pivots of the model of find_best_pivot "
-    "are legal (C16_best_pivots_dir_legal, C16_tarjan_pivots_legal).  Correspondence: replay of EVERY logged run on the "
+    "are legal (C16_best_pivots_dir_legal, C16_tarjan_pivots_legal).  Correspondence: replay of EVERY run on the "
     "machine -- visits, symmetric SCC steps (aspect replaya) and directed SCC steps (aspect replayd: components from the "
-    "extracted Tarjan model, bridge selection of scc_graph.rs, pivots of the model of find_best_pivot, propagation, "
-    "per-node refinement) -- with exact agreement of all reported values and iteration counters; the radial vertex is "
+    "extracted Tarjan model, bridge selection of scc_graph.rs, propagation, per-node refinement).  The steps are OBSERVED, "
+    "not derived from log text or from a model of the choice heuristics: a guarded call-out of the code (cargo feature "
+    "verif_hooks of webgraph-algo, off by default; webgraph_algo::verif_hooks::ESS_STEP) reports direction and start vertex "
+    "of every breadth-first visit and the pivot array find_best_pivot returned for every SCC step; the machine is run on "
+    "exactly those, so the replay is insensitive to log wording, to the tie-breaks of find_best_pivot and to the rule "
+    "choosing start vertices (the theorems hold for any legal ones).  Their legality is checked with boolean tests proved "
+    "equivalent to the hypotheses of the theorems (aspects vislegal, pivlegal; C16_legal_pivotsb_spec, "
+    "C16_legal_pivots_symb_spec); whether the observed pivots equal those of the model of find_best_pivot is reported as "
+    "information only (pivots_vs_model_of_find_best_pivot in the distribution).  Exact agreement of all reported values and "
+    "iteration counters is required; the radial vertex is "
     "compared exactly except for directed runs with SCC steps on pools of more than one thread, where it depends on the "
     "schedule of the parallel loop (model: an explicit order argument) and is decided by the oracle aspect rv.  What is "
     "NOT covered by proof: that the implementation follows the machine (correspondence is by replay on the explored "
-    "graphs); the choice of the next step (the utility heuristic) is taken from the log; breadth-first visits are C13")
+    "graphs); the choice of the next step (the utility heuristic), of the start vertices and of the pivots is taken from "
+    "the call-out; the model only decides where the initial SumSweep heuristic ends (its iterations are skipped when no "
+    "node is incomplete), which affects the iteration counters alone; breadth-first visits are C13")
 ASSUMPTIONS = [
     "the harness builds the transpose itself and symmetric inputs are symmetric (the library leaves the result undefined otherwise)",
     "default radial vertices: the documentation says 'the largest strongly connected component'; when several components "
@@ -42,9 +52,17 @@ ASSUMPTIONS = [
     "thread schedules are those the OS produces on pools of 1..16 threads",
     "run_symm: radius <= n/2 for a radial set containing a whole connected component is proved (C16_component_radius_half); "
     "the aspect 'symhyp' still evaluates it on every explored symmetric graph as a sanity check of the oracle",
+    "the steps of a run (direction and start vertex of every visit, pivot array of every SCC step) are those reported by the "
+    "guarded call-out webgraph_algo::verif_hooks::ESS_STEP (add-only patch hooks/ess_step_hook.patch, compiled out unless "
+    "the cargo feature verif_hooks of webgraph-algo is on): one call in step_sum_sweep before the visit, one in "
+    "all_cc_upper_bound right after find_best_pivot returned; the progress-logger messages are only cross-checked "
+    "(information: log_vs_callout in the distribution)",
+    "symmetric SCC step: the code's pivot array is indexed by connected component, the machine's by node; the pivot of a "
+    "node is taken to be the observed pivot that reaches it, after checking that exactly one does (aspect pivlegal)",
     "directed SCC step: the replay takes the component numbering from the extracted model of sccs::tarjan (proved to be an "
     "SCC labelling in reverse topological order, C16_tarjan_scc_topo; Level::run calls sccs::tarjan on the graph, and C15 "
-    "compares that routine with the model); a different numbering in the implementation would show as a replay mismatch",
+    "compares that routine with the model); the observed pivot array is indexed by the implementation's numbering, so a "
+    "different numbering in the implementation would show as a pivlegal / replay mismatch",
     "directed SCC step on pools of more than one thread: the radial vertex depends on the order in which the parallel "
     "per-node loop meets the candidates (an argument of the model, quantified over in the theorems); it is not compared "
     "with the model's canonical order, only checked by the oracle",
@@ -53,8 +71,9 @@ ASSUMPTIONS = [
 
 def run_ess(ctx, harness_args, oracle_aspects, corr_aspects, nontrivial, seed_offset, name, timeout=3000):
     """codec.run_simple with a property-specific distribution: which machine replayed the run (visits only, symmetric
-    SCC steps, directed SCC steps), how many directed SCC steps, and whether the schedule-dependent radial vertex of
-    a multi-thread directed run coincides with the one of the model's canonical order."""
+    SCC steps, directed SCC steps), how many directed SCC steps, whether the schedule-dependent radial vertex of
+    a multi-thread directed run coincides with the one of the model's canonical order, whether the observed pivots are
+    those of the model of find_best_pivot, and whether the log messages name the same steps as the call-out."""
     tier, seed = ctx["tier"], ctx["seed"]
     path = os.path.join(vlib.RUNS, "C16_%s_%s.cases" % (name, tier))
     vlib.run_harness(["ess", "--seed", str(seed + seed_offset)] + harness_args, path, timeout=timeout)
@@ -77,6 +96,10 @@ def run_ess(ctx, harness_args, oracle_aspects, corr_aspects, nontrivial, seed_of
             dist["directed_scc_pool=" + ("1" if case.get("pool") == "1" else ">1")] += 1
         if "i_rvsched" in res:
             dist["directed_scc_multithread_radial_vertex=" + res["i_rvsched"]] += 1
+        if "i_pivmatch" in res:
+            dist["pivots_vs_model_of_find_best_pivot=" + res["i_pivmatch"]] += 1
+        if "i_logmatch" in res:
+            dist["log_vs_callout=" + res["i_logmatch"]] += 1
         k = nontrivial(case)
         if k is not None:
             keys.add(k)
@@ -104,7 +127,7 @@ def run_ess(ctx, harness_args, oracle_aspects, corr_aspects, nontrivial, seed_of
 def run(ctx):
     quick = ctx["tier"] == "quick"
     oracle = {"status", "exact", "eccf", "eccb", "diam", "dv", "radius", "rv", "sched", "symhyp", "big"}
-    corr = {"replay", "replaya", "replayd", "replayrv", "schedrv"}
+    corr = {"replay", "replaya", "replayd", "replayrv", "schedrv", "vislegal", "pivlegal"}
     nontrivial = (lambda c: None if int(c.get("n", "0")) < 2 else
                   (c.get("g"), c.get("sym"), c.get("rad"), c.get("lvl"), c.get("tot")))
     matchers = []
